@@ -85,6 +85,22 @@ CLAIMED.update({
         design_ref="§5 C16", note="ISL modelled; loopy C target executes."),
 })
 
+CLAIMED["C15"] = dict(
+    technique="Lean 4 theorems about a model of the unique-name generator (freshness, pairwise distinctness for any "
+              "seeds/requests) + correspondence with pytools + adversarial renaming of real programs with duplicate detection "
+              "on the real kernel",
+    text="Proved (model Pt.NameGen of pytools.UniqueNameGenerator): a generated name is never an existing one; every request "
+         "sequence yields pairwise distinct names disjoint from all seeds, for any prefixes and any user names; add_name rejects "
+         "conflicts. Tie: random operation sequences real generator vs model; generated programs rebuilt with inputs/outputs "
+         "renamed to exactly the identifiers the kernel contains (inames, temporaries, instruction ids, accumulators) and "
+         "near-misses: in the real kernel all argument/temporary/iname/substitution names pairwise distinct, user names kept "
+         "verbatim, other names from _pt_, bound data are the wrapped objects, values still right; clash / Named / PrefixNamed / "
+         "reserved-name scenarios. An output key equal to an input name is rejected by pytato with an explicit conflict "
+         "diagnostic (accepted as allowed outcome, counted).",
+    design_ref="§5 C15",
+    note="pytools' and loopy's name generators are modelled/observed, not verified; the theorem covers the generator, the "
+         "order of seeding in generate_loopy/preprocess is checked by the adversarial batch.")
+
 NOT_YET = "check not built yet in this revision (see DESIGN.md §10 build order); not claimed"
 
 ALL = [f"C{n:02d}" for n in range(1, 21)]
